@@ -47,3 +47,20 @@ Theorem C02_world_run_K : forall ops w, WorldInv w -> 0 < p_S (w_p w) -> 0 < p_S
      <= p_r1 (w_q (wrun w ops)) * p_r2 (w_q (wrun w ops)) * (p_S (w_q w) * p_S (w_q w))).
 Proof. exact wrun_K. Qed.
 Print Assumptions C02_world_run_K.
+
+(** No round-trip profit for ANY operation mix: a history that returns the LP supply to its starting value (swaps by
+    anyone, liquidity added and later removed, donations, fee hand-offs, failed calls) never leaves the pool with no
+    more of either token and strictly less of one.  ([C02_swaps_no_profit] is the swap-only instance.) *)
+Theorem C02_run_no_profit : forall ops p, PairInv p -> 0 < p_S p -> p_S (run p ops) = p_S p ->
+  ~ (p_r1 (run p ops) <= p_r1 p /\ p_r2 (run p ops) <= p_r2 p /\
+     (p_r1 (run p ops) < p_r1 p \/ p_r2 (run p ops) < p_r2 p)).
+Proof. exact run_same_S_no_profit. Qed.
+Print Assumptions C02_run_no_profit.
+
+(** Non-vacuity of [C02_run_no_profit]: liquidity added, a swap by a third party, the liquidity removed again — the LP
+    supply is back at its starting value and the hypotheses hold on a reachable state. *)
+Example C02_run_no_profit_nonvacuous :
+  let p := run (init_pair 300 50 None) [SetState OWNER 1; Add 1 1001 10000000000000 1 1] in
+  let h := [Add 2 500 5000000000000 1 1; SwapIn 3 1 70 2 1; Remove 2 499 1 1] in
+  0 < p_S p /\ p_S (run p h) = p_S p /\ p_r1 p < p_r1 (run p h).
+Proof. vm_compute. repeat split. Qed.
